@@ -15,6 +15,7 @@ def text_tokens(s):
 
 class C20(Prop):
     id = "C20"
+    refusal_family = "syntax"
     trace_module = "TraceC20"
     trace_cfg = "TraceC20.cfg"
     backends = ("py", "torch")
